@@ -107,6 +107,7 @@ Pred ==
     [] Ev.op = "CLUnblinded"  -> PUnblinded
     [] Ev.op = "CLSharedBlinding" -> PSharedBlinding
     [] Ev.op = "CLFresh"      -> PFresh
+    [] Ev.op = "CLInfoLink"   -> TRUE            \* informational (F11, outside the listed properties)
     [] Ev.op = "CLKeyFacts"   -> PKeyFacts
     [] Ev.op = "CLRandomFacts" -> PRandomFacts
 
